@@ -485,6 +485,15 @@ def _recover_and_converge(world, p, op, truth, tfile, pre_texts, how, black, sta
     """After a faulted sync: the simulated user brings torn files back into the property's domain (delete / empty /
     restore), then B7: one sync establishes B1-B4 and the next one B5."""
     viols = []
+    # B4 under failure: a sync that failed (error or crash) may leave a listed file torn — that is what the fault
+    # models, and a torn prefix may even parse — but it never removes a listed file that existed
+    for k in KINDS:
+        prev, now = pre_texts[FILES[k]], world.read(FILES[k])
+        if prev is None:
+            continue
+        if now is None:
+            viols.append({"clause": "B4", "detail": "the failed sync removed the listed file %s (it existed before)" % FILES[k],
+                          "sig": {"what": "listed_file_removed_by_failed_sync", "kind": k}})
     for k in KINDS:
         t = world.read(FILES[k])
         if t is not None and t != "" and not _parses(t):
